@@ -504,6 +504,9 @@ func (m *Dense) Exp(a Matrix) {
 		}},
 	}
 
+	// The norm is taken before a is copied into the receiver,
+	// which may share elements with a.
+	n1 := Norm(a, 1)
 	a1 := m
 	a1.Copy(a)
 	v := getDenseWorkspace(r, r, true)
@@ -520,7 +523,6 @@ func (m *Dense) Exp(a Matrix) {
 	a2 := getDenseWorkspace(r, r, false)
 	defer putDenseWorkspace(a2)
 
-	n1 := Norm(a, 1)
 	for i, t := range pade {
 		if n1 > t.theta {
 			continue
